@@ -552,7 +552,10 @@ func check32(thorough bool, seed int64) {
 	// 1. exhaustive over every digit string up to a length
 	exL := 7
 	if thorough {
-		exL = 10
+		exL = 9
+	}
+	if v, err := strconv.Atoi(os.Getenv("VERIF_TWIN_EXHAUSTIVE")); err == nil && v >= 1 && v <= 10 {
+		exL = v // (10 = every digit string an int32 could hold and beyond: about 20 CPU-minutes)
 	}
 	r.Exhaustive = fmt.Sprintf("every digit string of length 1..%d", exL)
 	for L := 1; L <= exL; L++ {
